@@ -549,6 +549,18 @@ pub fn exec(case: &TreeCase) -> RunOut {
     }
     for (which, (o1, o2)) in case.orders.iter().enumerate() {
         verif::set_orders(o1.to_order(), o2.to_order());
+        if case.alias.is_huffman() {
+            for (which_map, o) in [("frequency_map", o1), ("length_map", o2)] {
+                let kind = match o {
+                    OrderSpec::Real => "real",
+                    OrderSpec::Canonical => "canonical",
+                    OrderSpec::Reverse => "reverse",
+                    OrderSpec::Seeded(_) => "seeded_permutation",
+                    OrderSpec::Explicit(_) => "explicit_permutation",
+                };
+                out.count(&format!("fault.enumeration_order_{which_map}_{kind}"), 1);
+            }
+        }
         let built = catch(|| build_tree(case.alias, case.ty, case.path, &m.seq));
         let deep_by_own = case.alias.is_huffman() && own_depth * frag_bits > 32;
         let t = match built {
